@@ -5,7 +5,7 @@ BASE = ('rustc type/borrow checking and MIR construction (incl. drop elaboration
         'semantics of core functions as frozen in mmcheck/models.py; user types contain no unsafe code that '
         'reaches into the container')
 
-ALLP = ['C%02d' % i for i in range(1, 21) if i != 19]
+ALLP = ['C%02d' % i for i in range(1, 21)]
 
 ENGINES = [
     {'name': 'mmdrv', 'path': 'driver/', 'serves_properties': ALLP,
@@ -15,7 +15,7 @@ ENGINES = [
      'kind_free_text': 'abstract interpreter over the exported MIR: difference-bound zone over usize terms, slot '
                        'exceptions (holes / extras / ranges) per container, inlining of local callees, models of '
                        'core, unwinding into cleanup blocks, loop-head joins with widening'},
-    {'name': 'specs', 'path': 'mmcheck/specs.py', 'serves_properties': ['C01', 'C03', 'C05', 'C07', 'C08', 'C09', 'C10', 'C11', 'C12', 'C13', 'C14', 'C15', 'C16', 'C18', 'C20'],
+    {'name': 'specs', 'path': 'mmcheck/specs.py', 'serves_properties': ['C01', 'C03', 'C05', 'C07', 'C08', 'C09', 'C10', 'C11', 'C12', 'C13', 'C14', 'C15', 'C16', 'C18', 'C19', 'C20'],
      'kind_free_text': 'outcome schemas derived from the property statements, evaluated on every normal-return path '
                        'the interpreter produces for the anchor roots: path classes (key found at slot h / appended / '
                        'full-prefix miss) are read off the path itself (answers of the user ==, slot events), then '
@@ -30,8 +30,6 @@ NOTES = ('Static analysis only: no registered check executes micromap code. Ever
          'selftest.py validates the checker against selftest/mutants and seeded/ in scratch worktrees.')
 
 NOT_APPLICABLE = {
-    'C19': 'the property is about exact rendered strings (run-time values); no sound static rule in reach decides '
-           'it, and a literal-comparison rule would be a frozen-text proxy (DESIGN.md §6.C19)',
 }
 
 TEXT = {
@@ -270,6 +268,24 @@ TEXT.update({
                  'or (repeated key) the first key object is kept, the new value stored, no capacity consumed; extend inserts into the receiver itself (not into a temporary that replaces it afterwards: the two differ when a later item or the source panics). Not '
                  'decided: that a panic occurs exactly when more than N distinct keys arrive (follows from C03 + C05).',
         'note': BASE,
+    },
+    'C19': {
+        'engine': SCHEMA,
+        'technique': 'abstract interpretation of MIR: which slots reach the formatter (per-entry schema of the rendering loops, counted cursor advances)',
+        'level': 'Partial (level other): the LISTING clause only -- which entries are rendered, not the text. For Debug and '
+                 'Display of Map and Set and Debug of Iter, IterMut, Keys, Values, ValuesMut, Drain, IntoIter, IntoKeys, '
+                 'IntoValues: every round of the rendering loop passes over exactly one element of the range the receiver '
+                 'still has to show (the live prefix of the container / the not-yet-yielded range of the cursor) and hands '
+                 'exactly the stated projection of that element (key and value in that order / key / value) to the '
+                 'formatter, once; on every path that was not cut short by a formatter error the number of elements '
+                 'passed over equals the size of that range (counted in the abstract state), so no entry is missing, '
+                 'repeated, already yielded or taken from a dead slot; Map and Set are rendered front to back; the '
+                 'container is not modified. Debug of the lazy set-algebra iterators: the value handed to entries() is '
+                 'equal to the receiver (a faithful copy), so what is listed is what the iterator itself would yield '
+                 '(C08). NOT decided (run-time strings; an exact-text rule would be a frozen-literal proxy): braces, '
+                 'separators, the `key: value` punctuation, the alternate form -- the existing tests compare those '
+                 'strings for small containers.',
+        'note': BASE + '; core::fmt builders (DebugList/DebugSet/DebugMap::entries format every item of the iterator they are given, in order) as modelled in mmcheck/models.py',
     },
     'C20': {
         'engine': SCHEMA,
